@@ -419,6 +419,28 @@ def _eval_roundtrip(case, out, acc=None, tmpdir=None):
         o = CryptContext()
         if guarded("load(context)", lambda: o.load(ctx)) is None:
             cmp(o, "load(context)")
+        # a context OBJECT is a source like a dict: a plain one (above), a lazily configured one that was used
+        # before, and one nobody has touched yet (the state the presets of passlib.apps are imported in)
+        if not custom:
+            from passlib.context import LazyCryptContext
+
+            def lazy_src(state):
+                z = LazyCryptContext(**materialize(cfg)[0])
+                if state == "used":
+                    z.schemes()
+                return z
+
+            for state in ("untouched", "used"):
+                for how, f in (("load", lambda o, z: o.load(z)), ("update", lambda o, z: o.update(z)),
+                               ("load(update=True)", lambda o, z: o.load(z, update=True))):
+                    o, z = CryptContext(), lazy_src(state)
+                    if guarded(f"{how}({state} lazy context)", lambda: f(o, z)) is None:
+                        cmp(o, f"{how}({state} lazy context)")
+                        cmp(z, f"the {state} lazy context after being the source of {how}()")
+                z = lazy_src(state)
+                cmp(guarded(f"copy() of the {state} lazy context", lambda: z.copy()), f"copy() of the {state} lazy context")
+                z = lazy_src(state)
+                cmp(guarded(f"from_string(to_string()) of the {state} lazy context", lambda: CryptContext.from_string(z.to_string())), f"to_string of the {state} lazy context")
         # ... and the lists the caller passed IN stay the caller's too: editing them after construction changes nothing
         if not custom:
             src = {k: (list(v) if isinstance(v, list) else v) for k, v in materialize(cfg)[0].items()}
